@@ -81,7 +81,8 @@ pub fn apply_fsop(sb: &Path, op: &Value) -> i64 {
                 // this is how a symlink itself gets over-mounted
                 let src = CString::new(unhex(a[1].as_str().unwrap())).unwrap();
                 let t = CString::new(unhex(a[2].as_str().unwrap())).unwrap();
-                let tfd = libc::syscall(libc::SYS_open_tree, libc::AT_FDCWD, src.as_ptr(), 1 /* OPEN_TREE_CLONE */ | libc::O_CLOEXEC);
+                let tfd = libc::syscall(libc::SYS_open_tree, libc::AT_FDCWD, src.as_ptr(),
+                                       1 /* OPEN_TREE_CLONE */ | libc::O_CLOEXEC | libc::AT_SYMLINK_NOFOLLOW /* a symlink source is cloned itself */);
                 if tfd < 0 {
                     -1
                 } else {
